@@ -481,6 +481,17 @@ def run(tier):
     audit_f = [aux_pool.submit(_audit_worker, fast, i, s, p, a_exec, a_ops) for i, (s, p) in enumerate(audit_combos)] \
         if probe_fast else []
 
+    asan, probe_asan = asan_f.result()
+    builders.shutdown()
+    have_probe = probe_fast and probe_asan
+    ck.set("probe_available", have_probe)
+    log("[C10] ASan build ready at %.1fs" % (time.time() - t0))
+    rec_pool = ThreadPoolExecutor(max(1, min(3, vlib.NCPU)))   # ahead of the queued exhaustive walks: TLC comes after
+    rec_f = [rec_pool.submit(_record_one, asan, i, s, p, nexec, nops) for i, (s, p) in enumerate(COMBOS)]
+    for config, walks, wl in plan["rnd"]:
+        for s, p in COMBOS:
+            futs.append(pool.submit(_replay_job, agg, asan, config, graphs[config], 0, s, p, walks, wl, "full", 0, vlib.seed()))
+
     # 4b. GreedyKCenters replay
     kc_stats = {}
     kc_fail = []
@@ -503,17 +514,6 @@ def run(tier):
         ck.tlc(f.result(), "mc-" + c)
     tlc_pool.shutdown()
     log("[C10] models checked, k-centres replayed at %.1fs" % (time.time() - t0))
-
-    asan, probe_asan = asan_f.result()
-    builders.shutdown()
-    have_probe = probe_fast and probe_asan
-    ck.set("probe_available", have_probe)
-    log("[C10] ASan build ready at %.1fs" % (time.time() - t0))
-    rec_pool = ThreadPoolExecutor(max(1, min(3, vlib.NCPU)))   # ahead of the queued exhaustive walks: TLC comes after
-    rec_f = [rec_pool.submit(_record_one, asan, i, s, p, nexec, nops) for i, (s, p) in enumerate(COMBOS)]
-    for config, walks, wl in plan["rnd"]:
-        for s, p in COMBOS:
-            futs.append(pool.submit(_replay_job, agg, asan, config, graphs[config], 0, s, p, walks, wl, "full", 0, vlib.seed()))
 
     # 3b. recorded random histories validated by TLC against the contract
     results = [f.result() for f in rec_f]
